@@ -82,6 +82,8 @@ def features(mod, t, v):
                         f.add('ext_addition_present')
                         if g is not None:
                             f.add('ext_group_present')
+                        if any(gg is not None for _, _, gg in all_members(bt)):
+                            f.add('ext_addition_in_grouped_type')
         if k == 'CHOICE':
             if v[0] in [m.name for m in bt.adds]:
                 f.add('choice_ext_alt')
